@@ -195,6 +195,9 @@ if "C07" in which:
          "request the handler sees has exactly the transmitted id, role, flags and environment; exactly the replies owed for the "
          "preamble's management records have been written; and the stream parser starts with exactly the bytes that followed the "
          "preamble — for every transport behaviour", "handler_sees_request", "C07_handler_sees_exactly_the_request", ["handler_sees_request_stmt"]),
+        ("'exactly one handler invocation': one iteration of Token::run — while no shutdown was requested it parses ONE request, runs the "
+         "handler ONCE on it, closes it ONCE when the handler returned a status (a handler Err ends the connection without close unless "
+         "it is the client's abort), and continues only with the parser a successful close handed back", "run_loop_iteration", "C07_one_handler_call_per_request"),
     ], tail='''(* non-vacuity of C07_handler_sees_exactly_the_request: a concrete connection (B = 160, a GetValues junk record inside
    the preamble, leftover = 5 bytes, two client segments, Pending reads and writes) satisfies every hypothesis *)
 Example C07_handler_sees_example : forall s0 w', lp_run = Ok (inl s0) w' ->
